@@ -157,7 +157,7 @@ func selectOp(op string, cases []*selCase, hasDefault bool) int {
 		k := 0
 		if len(ready) > 1 {
 			// Go picks uniformly among ready cases: a choice of its own
-			k = s.ch.Choose(len(ready), op+"/ready-case")
+			k = s.choose(len(ready), op+"/ready-case")
 			if s.cfg.Record {
 				s.logf("T%d %-12s %s: %d cases ready, case %d taken", t.ID, t.Name, op, len(ready), ready[k])
 			}
